@@ -1,6 +1,6 @@
 CONSTANTS
   Dbs = {"a", "b"}
-  Keys = {"k1", "k2", "k3"}
+  Keys = {"k1", "k2", "k3", "ga", "gb"}
   Primary = "p"
   MaxLen = 3
 SPECIFICATION MCSpec
